@@ -1128,7 +1128,13 @@ class Config:  # pylint: disable=too-many-instance-attributes
         """
         dup = object.__new__(type(self))
         memo[id(self)] = dup
+        methods = []
         for name, value in self.__dict__.items():
+            field = self._fields.get(name) or self._schema._fields.get(name)
+            if isinstance(field, InstanceMethodFieldMixin):
+                # a bound method is bound to one configuration: the copy gets its own below
+                methods.append(field)
+                continue
             if name == "_schema":
                 value = self._schema
             elif name in ("_parent", "_container"):
@@ -1136,6 +1142,8 @@ class Config:  # pylint: disable=too-many-instance-attributes
             else:
                 value = copy.deepcopy(value, memo)
             object.__setattr__(dup, name, value)
+        for field in methods:
+            field.__setdefault__(dup)
         return dup
 
     def _get_value(self, key: str) -> Any:
